@@ -229,8 +229,10 @@ Definition out_names (k : receiver_kind) (s : sig) : list string :=
 Definition c16_rules (k : receiver_kind) (no_deps : bool) (src out : sig) : bool :=
   let desired := map desired_name (forwarded_src_args no_deps src) in
   let wanted := somes desired in
+  (* the rules speak when the wanted names are distinct and none is the function's own name; for impl
+     blocks [__impl] is the macro's reserved receiver identifier *)
   if nodup_str wanted && negb (str_mem (s_name src) wanted)
-     && negb (match k with RSelfRef => false | _ => str_mem "__impl" wanted end)
+     && negb (match k with RSelfRef => false | _ => str_mem "__impl" (s_name src :: wanted) end)
   then rules_ok desired (out_names k out)
   else Nat.eqb (List.length desired) (List.length (out_names k out)).
 
